@@ -409,6 +409,10 @@ LANGS = ["c", "cpp", "py", "html"]
 # ------------------------------------------------------------------------------------------------------------------
 # ambient state
 # ------------------------------------------------------------------------------------------------------------------
+try:
+    MY_SEED = int(os.environ.get("PYTHONHASHSEED", "0") or 0)     # ./check pins it to 0
+except ValueError:
+    MY_SEED = None
 T0 = 1000000000.0          # 2001-09-09
 CLOCKS = [1234567890.0, 1893456000.5, 86400.0 * 366 + 0.25]
 DIMS = ("clock", "hashseed", "process", "cwd", "spelling", "location", "outlocation")
@@ -630,7 +634,7 @@ class Lab:
             wfuts = [ex.submit(do_worker, s) for s in workers]
             for k, p in enumerate(prepared):
                 if p[3]["proc"] == "inproc":
-                    if p[3]["seed"] != int(os.environ.get("PYTHONHASHSEED", "0") or 0):
+                    if p[3]["seed"] != MY_SEED:
                         raise MachineryFailure("inproc run asked for a hash seed this interpreter does not have")
                     results[k] = self.inproc(p[0])
             for f in futs:
@@ -752,7 +756,6 @@ class Campaign:
         for (i, o, va), (job, out, res) in zip(items, outs):
             ref_rid, ref_out, ref_loc = ref_of[(i.id, o.id)]
             rid = self._add(i, o, va, res, ref_rid)
-            ref_files = {"/".join(map(str, [])): None}
             ref_files = {"".join(map(chr, f["p"])): f["d"] for f in self.records[ref_rid]["files"]}
             my_files = {"".join(map(chr, f["p"])): f["d"] for f in self.records[rid]["files"]}
             if ref_files != my_files:
@@ -807,23 +810,21 @@ class Campaign:
         if p_rejected != self.python_saw_difference:
             raise MachineryFailure("binding inconsistency: T-layer rejected %r, python saw differing digests for %r"
                                    % (sorted(p_rejected ^ self.python_saw_difference)[:10], "the others"))
-        # single-dimension differences first: they name the flow; multi-dimension runs are attributed to a flow already named
-        named = {}
-        pending = []
-        for rid in sorted(p_rejected):
+        # single-dimension differences first: they name the flow; a run that differs from its reference in several ambient
+        # dimensions is attributed to a flow already named by one of them (else it gets a `multi:` signature of its own)
+        todo = sorted(p_rejected, key=lambda r: (len(amb_dims(self.meta[self.meta[r][3]][2], self.meta[r][2])) != 1, r))
+        named = collections.defaultdict(set)   # (target, file class, where) -> dimensions that alone produce it
+        for rid in todo:
             inputs, opts, amb, ref_rid, _err = self.meta[rid]
             dims = amb_dims(self.meta[ref_rid][2], amb)
-            (pending if len(dims) != 1 else named.setdefault("_", [])).append((rid, dims))
-        for rid, dims in named.get("_", []) + pending:
-            inputs, opts, amb, ref_rid, _err = self.meta[rid]
             clause = [c for c in rejects[rid].split("+") if c.startswith("repro.")][0]
             for (fc, where, rel, detail) in self.diag.get(rid, [("?", "unclassified", "", "")]):
                 key = (opts.lang, fc, where)
                 if len(dims) == 1:
-                    named.setdefault(key, set()).add(dims[0])
+                    named[key].add(dims[0])
                     dim = dims[0]
                 else:
-                    cands = sorted(named.get(key, set()) & set(dims))
+                    cands = sorted(named[key] & set(dims))
                     dim = cands[0] if cands else "multi:" + "+".join(dims)
                 sig = "C07|%s|%s|%s|%s|%s" % (clause, opts.lang, dim, fc, where)
                 ex = ctx.cov.setdefault("violation_examples", {}).setdefault(sig, [])
@@ -957,7 +958,8 @@ def observed_order_key(order_rel):
 GATE_STIMULUS = {
     "gzip_mtime": [("py", [])], "ns_time": [("py", [])], "model_abspath": [("py", [])], "model_cache": [("py", [])],
     "assert_abspath": [("c", []), ("cpp", [])], "include_order": [("c", []), ("cpp", [])], "html_order": [("html", [])],
-    "pp_carry": [("c", ["--templates", "{tpl}"]), ("py", ["--templates", "{tpl}"]), ("cpp", ["--templates", "{tpl}", "--pp-max-emptylines", "1"])],
+    "pp_carry": [("c", ["--templates", "{tpl}"]), ("py", ["--templates", "{tpl}"]), ("cpp", ["--templates", "{tpl}", "--pp-max-emptylines", "1"]),
+                 ("html", ["--templates", "{tpl}", "--pp-max-emptylines", "1"])],
     "filter_owner": [("c", []), ("py", []), ("html", []), ("cpp", [])],
 }
 
@@ -1020,10 +1022,13 @@ def model_stimuli(ctx, camp, wit, orders):
     seeds = list(range(1, ctx.pick(5, 12)))
     per = ctx.pick(2, 25)
     order_pairs = collections.OrderedDict()
-    for (g, lang, _dep), shapes in ord_w.items():
+    for (g, lang, dep), shapes in ord_w.items():
         sks = sorted(shapes, key=lambda s: (-len(json.loads(s)["types"]), s))
-        step = max(1, len(sks) // per)
-        for sk in sks[::step][:per]:
+        n = per
+        if g == "filter_owner":     # any run under another hash seed is a stimulus for this gate: one shape per target is plenty
+            n = 1 if dep == "none" else 0
+        step = max(1, len(sks) // max(n, 1))
+        for sk in sks[::step][:n]:
             w = shapes[sk]
             for (l2, args) in GATE_STIMULUS[g]:
                 if l2 != lang:
@@ -1045,10 +1050,7 @@ def model_stimuli(ctx, camp, wit, orders):
     # I-layer: observed creation orders must be among the predicted ones; how much of the predicted set was seen
     seen_orders, pred_orders, varied, could_vary = 0, 0, 0, 0
     for (iid, oid), (shape, lang, args) in order_pairs.items():
-        if "--templates" in args and lang == "py":
-            ns_types = True
-        else:
-            ns_types = lang in ("py", "html")
+        ns_types = lang in ("py", "html")
         pred = predicted.get((ns_types, shape_key(shape)))
         obs = {observed_order_key(o) for o in camp.orders.get((iid, oid), ())}
         if not pred or not obs:
@@ -1079,9 +1081,10 @@ def variants(rng, n_seeds, rich, front):
     v += [ambient(clock=CLOCKS[1], tz="America/St_Johns", loc="B", cwd="input", spell="rel", seed=3 + n_seeds, outloc="out"),
           ambient(proc="worker", seed=7, clock=CLOCKS[2], loc="C", cwd="base", spell="rel")]
     if rich:
-        v += [ambient(loc="C"), ambient(cwd="input", spell="rel"), ambient(cwd="base"), ambient(proc="inproc"),
-              ambient(proc="worker", seed=5, loc="B"), ambient(proc="worker", seed=5, loc="B", clock=CLOCKS[1]),
-              ambient(proc="inproc", clock=CLOCKS[2], loc="C", cwd="root")]
+        v += [ambient(loc="C"), ambient(cwd="input", spell="rel"), ambient(cwd="base"),
+              ambient(proc="worker", seed=5, loc="B"), ambient(proc="worker", seed=5, loc="B", clock=CLOCKS[1])]
+        if MY_SEED is not None:
+            v += [ambient(proc="inproc", seed=MY_SEED), ambient(proc="inproc", seed=MY_SEED, clock=CLOCKS[2], loc="C", cwd="root")]
     return v
 
 
@@ -1111,7 +1114,9 @@ def random_campaign(ctx, camp):
             for api in apis:
                 ref = ambient(proc="worker")
                 vs = [ambient(proc="worker", clock=CLOCKS[0]), ambient(proc="worker", loc="B"), ambient(proc="worker", seed=2),
-                      ambient(proc="inproc"), ambient(proc="worker", seed=4, loc="C", cwd="root", clock=CLOCKS[1], spell="rel")]
+                      ambient(proc="worker", seed=4, loc="C", cwd="root", clock=CLOCKS[1], spell="rel")]
+                if MY_SEED is not None:
+                    vs.insert(3, ambient(proc="inproc", seed=MY_SEED))
                 specs.append((i, camp.new_opts(lang, "api", api=api), ref, vs if (n == 0 or not q) else vs[:3]))
     camp.groups(specs)
     for (i, o, _r, vs) in specs:
@@ -1122,7 +1127,6 @@ def random_campaign(ctx, camp):
 def audit_campaign(ctx, camp):
     """--embed-auditing-info: the property is silent; results may differ and must not alarm.  They MUST differ when clock and
     location differ: that shows the ambient variation really reaches the generator (non-vacuity of the whole check)."""
-    i = camp.inputs[1] if 1 in camp.inputs else camp.new_inputs(fixed_inputs)
     fx = [x for x in camp.inputs.values() if x.name == "fixed"]
     i = fx[0] if fx else camp.new_inputs(fixed_inputs)
     specs = []
@@ -1236,9 +1240,8 @@ def replay(ctx, case):
     o = Opts.from_json(1, case["opts"])
     camp.opts[1] = o
     ref, var = dict(case["ref"]), dict(case["var"])
-    me = int(os.environ.get("PYTHONHASHSEED", "0") or 0)
     for a in (ref, var):
-        if a["proc"] == "inproc" and a["seed"] != me:
+        if a["proc"] == "inproc" and a["seed"] != MY_SEED:
             a["proc"] = "worker"
     camp.groups([(i, o, ref, [var])])
     if camp.failed_baselines:
